@@ -641,12 +641,11 @@ class FnAnalysis(Analysis):
             if isinstance(op, (ast.In, ast.NotIn)):
                 pos = isinstance(op, ast.In) == truth
                 ik, ck = self.key_of(l), self.key_of(r)
+                q = self.enum_member_list(r, st) if (pos and ik) else None
+                if q:
+                    st.members = st.members | {(ik, "enum:" + q)}
                 if pos and ik and ck:
                     st.members = st.members | {(ik, ck)}
-                elif pos and ik:
-                    q = self.enum_member_list(r, st)
-                    if q:
-                        st.members = st.members | {(ik, "enum:" + q)}
                 return
             # relational length facts: len(buf) >= n for an integer local n
             for (ll, rr, fl) in ((l, r, False), (r, l, True)):
@@ -724,6 +723,24 @@ class FnAnalysis(Analysis):
             r = _P.resolve_expr(self.m, e, self.fn.cls)
             if isinstance(r, ClassInfo) and self.prog.is_enum(r):
                 target = r
+            elif not isinstance(r, ClassInfo):
+                # a constant bound once to such a list: MODES = tuple(BreezeMode) at class or module level
+                node, ctx_cls, ctx_mod = None, None, self.m
+                nm = e.attr if isinstance(e, ast.Attribute) else e.id
+                if nm.isupper() or nm.lstrip("_").isupper():
+                    if isinstance(e, ast.Attribute):
+                        owner = _P.resolve_expr(self.m, e.value, self.fn.cls)
+                        if not isinstance(owner, ClassInfo) and isinstance(e.value, ast.Name) and self.recv and e.value.id == self.recv:
+                            owner = self.self_cls
+                        a = self.prog.lookup_class_attr(owner, nm) if isinstance(owner, ClassInfo) else None
+                        if a is not None:
+                            node, ctx_cls, ctx_mod = a[1], a[0], a[0].module
+                    elif nm not in getattr(self, "_local_names", ()):
+                        node = self.prog.module_assigns(self.m).get(nm)
+                if isinstance(node, ast.Call) and isinstance(node.func, ast.Name) and node.func.id in ("list", "tuple", "frozenset") and len(node.args) == 1:
+                    r2 = self.prog.resolve_expr(ctx_mod, node.args[0], ctx_cls)
+                    if isinstance(r2, ClassInfo) and self.prog.is_enum(r2):
+                        target = r2
         return target.qual if target else None
 
     def cint(self, e) -> Optional[int]:
